@@ -1,273 +1,32 @@
-(** C03 (iii) -- a checker WITH A SOUNDNESS THEOREM for "the optimised chain means what the raw chain
-    means, on every input".  sqlglot's optimizer is environment and is not modelled: for each program
-    the check exports the tree sqlframe built (raw) and the tree the optimizer returned (opt) and Coq
-    decides [equiv_check cs raw opt]; [equiv_check_sound] turns a [true] into equality of the two
-    chains' results for every well-formed input frame.
-
-    The normaliser [nf'] extends Sql.Norm.nf by
-      - [fuse]    inlining a filter/projection-only block into its consumer (substitution [subst];
-                  lemma [subst_eval]; ORDER BY keys are carried over only when SQL's name resolution
-                  provably gives them the same value -- [key_inl_ok]);
-      - [canon_blk] flattening / constant-folding / sorting / de-duplicating WHERE conjuncts and
-                  constant-folding + orienting expressions ([enorm]).
-    Qualifier erasure and the CASTs of the VALUES layer are handled by the exporter (fail-closed). *)
-From SF Require Export Sql.Norm.
+(** C03 (iii), part 4: fusing a whole chain, the normaliser [nf'], the checker and its soundness theorem. *)
+From SF Require Export C03.Order.
 From Coq Require Import Permutation.
 Open Scope Z_scope.
 
-(** * Substitution of a select list into an expression *)
-Fixpoint find_item (n : string) (sel : list (expr * string)) : option expr :=
-  match sel with
-  | [] => None
-  | (e, m) :: sel' => if String.eqb m n then Some e else find_item n sel'
-  end.
+(** * Fusing a whole chain: each block is merged into its consumer when one of the three rules applies *)
+Definition try_merge (cs : list string) (p b : block) : option block :=
+  if can_inline cs p b then Some (inline p b)
+  else if can_ordmerge cs p b then Some (ordmerge p b)
+  else if can_distmerge p b then Some (distmerge p b)
+  else None.
 
-Fixpoint subst (sel : list (expr * string)) (e : expr) : expr :=
-  match e with
-  | ECol n => match find_item n sel with Some e' => e' | None => ELit VNull end
-  | ELit v => ELit v
-  | EBin o a b => EBin o (subst sel a) (subst sel b)
-  | ENot a => ENot (subst sel a)
-  | ENeg a => ENeg (subst sel a)
-  | EIsNull a => EIsNull (subst sel a)
-  | EIf c t e' => EIf (subst sel c) (subst sel t) (subst sel e')
-  | ECoalesce a b => ECoalesce (subst sel a) (subst sel b)
-  end.
-
-Lemma lookup_proj cs sel r n :
-  lookup (out_cols sel) (proj cs sel r) n = option_map (eval cs r) (find_item n sel).
+Lemma try_merge_sound p b m fr :
+  try_merge (cols fr) p b = Some m -> wf_frame fr -> eval_block b (eval_block p fr) = eval_block m fr.
 Proof.
-  unfold lookup, out_cols, proj.
-  induction sel as [|[e m] sel IH]; simpl; [reflexivity|].
-  destruct (String.eqb m n); simpl; [reflexivity|].
-  destruct (index_of n (map snd sel)) as [i|]; simpl in *.
-  - exact IH.
-  - destruct (find_item n sel); simpl in *; [discriminate IH || exact IH | reflexivity].
+  unfold try_merge. intros H Hwf.
+  destruct (can_inline (cols fr) p b) eqn:E1; [inversion H; subst; apply inline_sound; assumption|].
+  destruct (can_ordmerge (cols fr) p b) eqn:E2; [inversion H; subst; apply ordmerge_sound; assumption|].
+  destruct (can_distmerge p b) eqn:E3; [inversion H; subst; apply distmerge_sound; assumption|].
+  discriminate.
 Qed.
 
-(** projection then expression = substituted expression *)
-Lemma subst_eval cs sel r e :
-  eval (out_cols sel) (proj cs sel r) e = eval cs r (subst sel e).
-Proof.
-  induction e; simpl.
-  - rewrite lookup_proj. destruct (find_item n sel); reflexivity.
-  - reflexivity.
-  - rewrite IHe1, IHe2. reflexivity.
-  - rewrite IHe. reflexivity.
-  - rewrite IHe. reflexivity.
-  - rewrite IHe. reflexivity.
-  - rewrite IHe1, IHe2, IHe3. reflexivity.
-  - rewrite IHe1, IHe2. reflexivity.
-Qed.
-
-Lemma holds_subst cs sel r e : holds (out_cols sel) (proj cs sel r) e = holds cs r (subst sel e).
-Proof. unfold holds. rewrite subst_eval. reflexivity. Qed.
-
-Lemma all_hold_subst cs sel r ws :
-  all_hold (out_cols sel) ws (proj cs sel r) = all_hold cs (map (subst sel) ws) r.
-Proof.
-  unfold all_hold. induction ws as [|w ws IH]; simpl; [reflexivity|].
-  rewrite holds_subst, IH. reflexivity.
-Qed.
-
-Definition subst_sel (s1 s2 : list (expr * string)) : list (expr * string) :=
-  map (fun it => (subst s1 (fst it), snd it)) s2.
-
-Lemma out_cols_subst_sel s1 s2 : out_cols (subst_sel s1 s2) = out_cols s2.
-Proof. unfold out_cols, subst_sel. rewrite map_map. reflexivity. Qed.
-
-Lemma proj_subst cs s1 s2 r : proj (out_cols s1) s2 (proj cs s1 r) = proj cs (subst_sel s1 s2) r.
-Proof.
-  unfold proj at 1 3. unfold subst_sel. rewrite map_map. apply map_ext. intro it. simpl. apply subst_eval.
-Qed.
-
-(** * Looking a column up in "input columns ++ output aliases" *)
-Lemma mem_index_of n cs : mem n cs = true -> exists i, index_of n cs = Some i.
-Proof.
-  unfold mem. induction cs as [|c cs IH]; simpl; [discriminate|].
-  rewrite String.eqb_sym. destruct (String.eqb c n); simpl; [eauto|].
-  intro H. destruct (IH H) as [i E]. rewrite E. simpl. eauto.
-Qed.
-
-Lemma index_of_app_l n cs o i : index_of n cs = Some i -> index_of n (cs ++ o) = Some i.
-Proof.
-  revert i. induction cs as [|c cs IH]; simpl; intros i H; [discriminate|].
-  destruct (String.eqb c n); [exact H|].
-  destruct (index_of n cs) as [j|]; simpl in *; [|discriminate].
-  rewrite (IH j eq_refl). exact H.
-Qed.
-
-Lemma lookup_app_l cs o (r ro : row) n :
-  mem n cs = true -> List.length r = List.length cs -> lookup (cs ++ o) (r ++ ro) n = lookup cs r n.
-Proof.
-  intros Hm Hl. destruct (mem_index_of _ _ Hm) as [i E]. unfold lookup.
-  rewrite (index_of_app_l _ _ _ _ E), E. apply index_of_lt in E.
-  apply nth_error_app1. lia.
-Qed.
-
-Lemma eval_app_l cs o (r ro : row) e :
-  cols_in cs e = true -> List.length r = List.length cs -> eval (cs ++ o) (r ++ ro) e = eval cs r e.
-Proof.
-  intros Hc Hl. apply eval_ext. intros n Hn. apply lookup_app_l; [|exact Hl].
-  unfold cols_in in Hc. rewrite forallb_forall in Hc. auto.
-Qed.
-
-(** * ORDER BY keys under inlining *)
-Definition is_outcol (ocs : list string) (e : expr) : bool :=
-  match e with ECol m => mem m ocs | _ => false end.
-
-Lemma eval_okey_general cs ocs p e d nf :
-  is_outcol ocs e = false ->
-  eval_okey cs ocs p (mkKey e d nf) = eval (cs ++ ocs) (snd p ++ fst p) e.
-Proof. unfold eval_okey. destruct e; simpl; intro H; try reflexivity. rewrite H. reflexivity. Qed.
-
-Lemma eval_okey_outcol cs ocs p n d nf :
-  mem n ocs = true -> eval_okey cs ocs p (mkKey (ECol n) d nf) = eval ocs (fst p) (ECol n).
-Proof. unfold eval_okey. simpl. intro H. rewrite H. reflexivity. Qed.
-
-Definition key_inl (s1 : list (expr * string)) (ocs2 : list string) (k : okey) : okey :=
-  if is_outcol ocs2 (k_e k) then k else mkKey (subst s1 (k_e k)) (k_desc k) (k_nf k).
-
-Definition key_inl_ok (cs : list string) (s1 : list (expr * string)) (ocs2 : list string) (k : okey) : bool :=
-  is_outcol ocs2 (k_e k)
-  || (cols_in (out_cols s1) (k_e k) && cols_in cs (subst s1 (k_e k))
-      && negb (is_outcol ocs2 (subst s1 (k_e k)))).
-
-Lemma key_inl_sound cs s1 ocs2 k (r out : row) :
-  key_inl_ok cs s1 ocs2 k = true -> List.length r = List.length cs ->
-  eval_okey (out_cols s1) ocs2 (out, proj cs s1 r) k = eval_okey cs ocs2 (out, r) (key_inl s1 ocs2 k).
-Proof.
-  intros Hok Hl. unfold key_inl_ok, key_inl in *. destruct k as [e d nf]. simpl in *.
-  destruct (is_outcol ocs2 e) eqn:Eo; simpl in Hok.
-  - destruct e; simpl in Eo; try discriminate. rewrite !eval_okey_outcol by exact Eo. reflexivity.
-  - apply andb_true_iff in Hok. destruct Hok as [Hok H3]. apply andb_true_iff in Hok. destruct Hok as [H1 H2].
-    apply negb_true_iff in H3.
-    rewrite (eval_okey_general _ _ _ e) by exact Eo.
-    rewrite (eval_okey_general _ _ _ (subst s1 e)) by exact H3. simpl.
-    rewrite eval_app_l; [|exact H1 | unfold proj, out_cols; rewrite !map_length; reflexivity].
-    rewrite eval_app_l; [|exact H2 | exact Hl].
-    apply subst_eval.
-Qed.
-
-(** * Inlining a filter/projection-only block into its consumer *)
-Definition simple_blk (b : block) : bool :=
-  negb (b_distinct b) && match b_order b with [] => true | _ => false end
-  && match b_limit b with None => true | Some _ => false end.
-
-Definition can_inline (cs : list string) (b1 b2 : block) : bool :=
-  simple_blk b1 && forallb (key_inl_ok cs (b_sel b1) (out_cols (b_sel b2))) (b_order b2).
-
-Definition inline (b1 b2 : block) : block :=
-  mkBlock (b_where b1 ++ map (subst (b_sel b1)) (b_where b2))
-          (subst_sel (b_sel b1) (b_sel b2))
-          (b_distinct b2)
-          (map (key_inl (b_sel b1) (out_cols (b_sel b2))) (b_order b2))
-          (b_limit b2).
-
-Lemma eval_filterproj_block b fr :
-  simple_blk b = true ->
-  eval_block b fr = mkFrame (out_cols (b_sel b))
-                            (map (proj (cols fr) (b_sel b)) (filter (all_hold (cols fr) (b_where b)) (rows fr))).
-Proof.
-  unfold simple_blk. intro H. apply andb_true_iff in H. destruct H as [H Hl].
-  apply andb_true_iff in H. destruct H as [Hd Ho]. apply negb_true_iff in Hd.
-  unfold eval_block. rewrite Hd. destruct (b_order b); [|discriminate]. destruct (b_limit b); [discriminate|].
-  rewrite sort_on_nil_keys by reflexivity. rewrite map_fst_pairs. reflexivity.
-Qed.
-
-Lemma filter_map_comm {A B} (f : A -> B) (p : B -> bool) l :
-  filter p (map f l) = map f (filter (fun x => p (f x)) l).
-Proof.
-  induction l as [|x l IH]; simpl; [reflexivity|]. destruct (p (f x)); simpl; rewrite IH; reflexivity.
-Qed.
-
-Lemma filter_filter_all cs ws1 ws2 (l : list row) :
-  filter (all_hold cs ws2) (filter (all_hold cs ws1) l) = filter (all_hold cs (ws1 ++ ws2)) l.
-Proof.
-  induction l as [|r l IH]; simpl; [reflexivity|].
-  assert (E : all_hold cs (ws1 ++ ws2) r = all_hold cs ws1 r && all_hold cs ws2 r)
-    by (unfold all_hold; apply forallb_app).
-  rewrite E. destruct (all_hold cs ws1 r); simpl; [|exact IH].
-  destruct (all_hold cs ws2 r); simpl; rewrite IH; reflexivity.
-Qed.
-
-Lemma dedup_on_map_snd {A B C} (h : B -> C) (l : list (A * B)) (k : A -> row) : forall seen,
-  dedup_on (fun p => k (fst p)) seen (map (fun p => (fst p, h (snd p))) l)
-  = map (fun p => (fst p, h (snd p))) (dedup_on (fun p => k (fst p)) seen l).
-Proof.
-  induction l as [|x l IH]; intro seen; simpl; [reflexivity|].
-  destruct (existsb (row_eqb (k (fst x))) seen); simpl; rewrite IH; reflexivity.
-Qed.
-
-Lemma dedup_on_incl {A} (k : A -> row) (l : list A) : forall seen x, In x (dedup_on k seen l) -> In x l.
-Proof.
-  induction l as [|y l IH]; intros seen x H; simpl in *; [contradiction|].
-  destruct (existsb (row_eqb (k y)) seen).
-  - right; eauto.
-  - destruct H as [<-|H]; [left; reflexivity | right; eauto].
-Qed.
-
-Theorem inline_sound b1 b2 fr :
-  can_inline (cols fr) b1 b2 = true -> wf_frame fr ->
-  eval_block b2 (eval_block b1 fr) = eval_block (inline b1 b2) fr.
-Proof.
-  intros Hc Hwf. unfold can_inline in Hc. apply andb_true_iff in Hc. destruct Hc as [Hs Hk].
-  rewrite (eval_filterproj_block b1 fr Hs).
-  set (cs := cols fr) in *. set (s1 := b_sel b1) in *. set (f := proj cs s1).
-  set (R' := filter (all_hold cs (b_where b1 ++ map (subst s1) (b_where b2))) (rows fr)).
-  set (h := fun p : row * row => (fst p, f (snd p))).
-  set (s2' := subst_sel s1 (b_sel b2)).
-  set (ocs2 := out_cols (b_sel b2)) in *.
-  unfold eval_block at 1. cbn [cols rows].
-  unfold eval_block. cbn [inline b_where b_sel b_distinct b_order b_limit]. fold cs s1 s2' ocs2.
-  assert (Eo : out_cols s2' = ocs2) by apply out_cols_subst_sel. rewrite Eo. f_equal.
-  (* the rows after WHERE *)
-  assert (E1 : filter (all_hold (out_cols s1) (b_where b2)) (map f (filter (all_hold cs (b_where b1)) (rows fr)))
-               = map f R').
-  { rewrite filter_map_comm. f_equal. unfold R'. rewrite <- filter_filter_all.
-    apply filter_ext. intro r. unfold f. apply all_hold_subst. }
-  rewrite E1.
-  (* the (output, input) pairs *)
-  set (ps' := map (fun r => (proj cs s2' r, r)) R').
-  assert (E2 : map (fun r => (proj (out_cols s1) (b_sel b2) r, r)) (map f R') = map h ps').
-  { unfold ps'. rewrite !map_map. apply map_ext. intro r. unfold h, f. simpl. rewrite proj_subst. reflexivity. }
-  rewrite E2. fold ps'.
-  (* DISTINCT *)
-  set (d' := if b_distinct b2 then dedup_on fst [] ps' else ps').
-  assert (E3 : (if b_distinct b2 then dedup_on fst [] (map h ps') else map h ps') = map h d').
-  { unfold d'. destruct (b_distinct b2); [|reflexivity].
-    exact (dedup_on_map_snd f ps' (fun r => r) []). }
-  rewrite E3.
-  assert (Hd' : forall a, In a d' -> exists r, In r (rows fr) /\ a = (proj cs s2' r, r)).
-  { intros a Ha. assert (Hin : In a ps').
-    { unfold d' in Ha. destruct (b_distinct b2); [eapply dedup_on_incl; eauto | exact Ha]. }
-    unfold ps' in Hin. apply in_map_iff in Hin. destruct Hin as [r [<- Hr]].
-    exists r. split; [|reflexivity]. unfold R' in Hr. apply filter_In in Hr. tauto. }
-  (* ORDER BY *)
-  set (K2 := okeys (out_cols s1) ocs2 (b_order b2)).
-  set (K' := okeys cs ocs2 (map (key_inl s1 ocs2) (b_order b2))).
-  assert (E4 : sort_on K2 (map h d') = map h (sort_on K' d')).
-  { rewrite <- (map_sort_on h (fun a => K2 (h a)) K2 d') by reflexivity. f_equal.
-    apply sort_on_ext_in. intros a Ha. destruct (Hd' a Ha) as [r [Hr ->]].
-    unfold K2, K', okeys, h. simpl. rewrite map_map. apply map_ext_in. intros k Hkin.
-    simpl. f_equal; [f_equal|].
-    - apply key_inl_sound.
-      + rewrite forallb_forall in Hk. apply Hk. exact Hkin.
-      + apply Hwf. exact Hr.
-    - unfold key_inl. destruct (is_outcol ocs2 (k_e k)); reflexivity.
-    - unfold key_inl. destruct (is_outcol ocs2 (k_e k)); reflexivity. }
-  rewrite E4.
-  destruct (b_limit b2) as [n|].
-  - rewrite firstn_map, map_map. reflexivity.
-  - rewrite map_map. reflexivity.
-Qed.
-
-(** * Fusing a whole chain *)
 Fixpoint fuse (cs : list string) (p : block) (bs : list block) : list block :=
   match bs with
   | [] => [p]
-  | b :: bs' => if can_inline cs p b then fuse cs (inline p b) bs'
-                else p :: fuse (out_cols (b_sel p)) b bs'
+  | b :: bs' => match try_merge cs p b with
+                | Some m => fuse cs m bs'
+                | None => p :: fuse (out_cols (b_sel p)) b bs'
+                end
   end.
 Definition fuse_chain (cs : list string) (bs : list block) : list block :=
   match bs with [] => [] | b :: bs' => fuse cs b bs' end.
@@ -276,363 +35,13 @@ Lemma fuse_sound bs : forall p fr, wf_frame fr ->
   eval_chain (fuse (cols fr) p bs) fr = eval_chain (p :: bs) fr.
 Proof.
   induction bs as [|b bs IH]; intros p fr Hwf; simpl; [reflexivity|].
-  destruct (can_inline (cols fr) p b) eqn:E.
-  - rewrite IH by exact Hwf. simpl. rewrite <- inline_sound by assumption. reflexivity.
+  destruct (try_merge (cols fr) p b) as [m|] eqn:E.
+  - rewrite IH by exact Hwf. simpl. rewrite <- (try_merge_sound p b m fr E Hwf). reflexivity.
   - simpl. rewrite <- (cols_eval_block p fr). rewrite IH by apply wf_eval_block. reflexivity.
 Qed.
 
 Lemma fuse_chain_sound bs fr : wf_frame fr -> eval_chain (fuse_chain (cols fr) bs) fr = eval_chain bs fr.
 Proof. destruct bs as [|b bs]; intro Hwf; [reflexivity | apply fuse_sound; exact Hwf]. Qed.
-
-(** * Canonical form of expressions: constant folding, orientation, boolean units *)
-
-(** an expression without column references has the same value on every row *)
-Fixpoint closed (e : expr) : bool :=
-  match e with
-  | ECol _ => false
-  | ELit _ => true
-  | EBin _ a b => closed a && closed b
-  | ENot a | ENeg a | EIsNull a => closed a
-  | EIf c t e' => closed c && closed t && closed e'
-  | ECoalesce a b => closed a && closed b
-  end.
-
-Lemma closed_eval e : closed e = true -> forall cs r, eval cs r e = eval [] [] e.
-Proof.
-  induction e; simpl; intros H cs r.
-  - discriminate.
-  - reflexivity.
-  - apply andb_true_iff in H. destruct H as [H1 H2]. rewrite (IHe1 H1 cs r), (IHe2 H2 cs r). reflexivity.
-  - rewrite (IHe H cs r). reflexivity.
-  - rewrite (IHe H cs r). reflexivity.
-  - rewrite (IHe H cs r). reflexivity.
-  - apply andb_true_iff in H. destruct H as [H H3]. apply andb_true_iff in H. destruct H as [H1 H2].
-    rewrite (IHe1 H1 cs r), (IHe2 H2 cs r), (IHe3 H3 cs r). reflexivity.
-  - apply andb_true_iff in H. destruct H as [H1 H2]. rewrite (IHe1 H1 cs r), (IHe2 H2 cs r). reflexivity.
-Qed.
-
-Definition rw_fold (e : expr) : expr := if closed e then ELit (eval [] [] e) else e.
-Lemma rw_fold_sound e cs r : eval cs r (rw_fold e) = eval cs r e.
-Proof.
-  unfold rw_fold. destruct (closed e) eqn:E; [|reflexivity]. simpl. symmetry. apply closed_eval. exact E.
-Qed.
-
-(** a total order on expressions, used only to pick a canonical orientation / conjunct order
-    (soundness never depends on it) *)
-Definition binop_rank (o : binop) : Z :=
-  match o with Add => 0 | Sub => 1 | Mul => 2 | Eq => 3 | Neq => 4 | Lt => 5 | Le => 6 | Gt => 7 | Ge => 8
-             | And => 9 | Or => 10 | NullSafeEq => 11 end.
-Definition ctor_rank (e : expr) : Z :=
-  match e with ECol _ => 1 | ELit _ => 0 | EBin _ _ _ => 2 | ENot _ => 3 | ENeg _ => 4 | EIsNull _ => 5
-             | EIf _ _ _ => 6 | ECoalesce _ _ => 7 end.
-Definition lexc (c d : comparison) : comparison := match c with Datatypes.Eq => d | _ => c end.
-Definition lit_rank (a : val) : Z :=
-  match a with VNull => 0 | VBool _ => 1 | VInt _ => 2 | VRat _ _ => 3 | VStr _ => 4 end.
-Definition lit_cmp (a b : val) : comparison :=
-  match a, b with
-  | VInt x, VInt y => Z.compare x y
-  | VStr x, VStr y => String.compare x y
-  | VBool x, VBool y => Z.compare (if x then 1 else 0) (if y then 1 else 0)
-  | VRat n d, VRat m e => lexc (Z.compare n m) (Pos.compare d e)
-  | _, _ => Z.compare (lit_rank a) (lit_rank b)
-  end.
-Fixpoint expr_cmp (a b : expr) : comparison :=
-  match a, b with
-  | ECol x, ECol y => String.compare x y
-  | ELit x, ELit y => lit_cmp x y
-  | EBin o a1 a2, EBin p b1 b2 =>
-      lexc (Z.compare (binop_rank o) (binop_rank p)) (lexc (expr_cmp a1 b1) (expr_cmp a2 b2))
-  | ENot x, ENot y => expr_cmp x y
-  | ENeg x, ENeg y => expr_cmp x y
-  | EIsNull x, EIsNull y => expr_cmp x y
-  | EIf c1 t1 e1, EIf c2 t2 e2 => lexc (expr_cmp c1 c2) (lexc (expr_cmp t1 t2) (expr_cmp e1 e2))
-  | ECoalesce a1 a2, ECoalesce b1 b2 => lexc (expr_cmp a1 b1) (expr_cmp a2 b2)
-  | _, _ => Z.compare (ctor_rank a) (ctor_rank b)
-  end.
-Definition expr_leb (a b : expr) : bool := match expr_cmp a b with Datatypes.Gt => false | _ => true end.
-
-(** [val_cmp] is antisymmetric, so comparisons may be turned round *)
-Lemma val_cmp_antisym x y : val_cmp y x = CompOpp (val_cmp x y).
-Proof.
-  destruct x, y; simpl; try reflexivity; try apply Z.compare_antisym; try apply String.compare_antisym.
-Qed.
-
-Lemma val_eqb_sym x y : val_eqb x y = val_eqb y x.
-Proof.
-  destruct x, y; simpl; try reflexivity.
-  - apply Z.eqb_sym.
-  - apply String.eqb_sym.
-  - destruct b, b0; reflexivity.
-  - rewrite Z.eqb_sym, Pos.eqb_sym. reflexivity.
-Qed.
-
-Definition flip_op (o : binop) : option binop :=
-  match o with
-  | Eq => Some Eq | Neq => Some Neq | Lt => Some Gt | Le => Some Ge | Gt => Some Lt | Ge => Some Le
-  | Add => Some Add | Mul => Some Mul | And => Some And | Or => Some Or | NullSafeEq => Some NullSafeEq
-  | Sub => None
-  end.
-
-Lemma cmp_flip o o' x y :
-  match o with Eq | Neq | Lt | Le | Gt | Ge => True | _ => False end ->
-  flip_op o = Some o' -> eval_bin o x y = eval_bin o' y x.
-Proof.
-  intros Hc Hf.
-  assert (H : forall c, cmp_tv o c = cmp_tv o' (CompOpp c)).
-  { intro c. destruct o; try contradiction; inversion Hf; subst; destruct c; reflexivity. }
-  destruct o; try contradiction; inversion Hf; subst; cbn [eval_bin];
-    destruct x, y; try reflexivity;
-    match goal with |- VBool (cmp_tv _ (val_cmp ?a ?b)) = _ => rewrite (val_cmp_antisym a b), H; reflexivity end.
-Qed.
-
-Lemma flip_sound o o' x y : flip_op o = Some o' -> eval_bin o x y = eval_bin o' y x.
-Proof.
-  intro Hf. destruct o; try (apply cmp_flip; [exact I | exact Hf]); inversion Hf; subst; simpl.
-  - destruct x, y; try reflexivity. rewrite Z.add_comm. reflexivity.
-  - destruct x, y; try reflexivity. rewrite Z.mul_comm. reflexivity.
-  - rewrite and3_comm. reflexivity.
-  - rewrite or3_comm. reflexivity.
-  - rewrite val_eqb_sym. reflexivity.
-Qed.
-
-Definition rw_flip (e : expr) : expr :=
-  match e with
-  | EBin o a b => match flip_op o with
-                  | Some o' => if expr_leb a b then e else EBin o' b a
-                  | None => e
-                  end
-  | _ => e
-  end.
-Lemma rw_flip_sound e cs r : eval cs r (rw_flip e) = eval cs r e.
-Proof.
-  destruct e; try reflexivity. simpl. destruct (flip_op o) as [o'|] eqn:Ef; [|reflexivity].
-  destruct (expr_leb e1 e2); [reflexivity|]. simpl. symmetry. apply flip_sound. exact Ef.
-Qed.
-
-(** the result of a boolean-shaped expression is TRUE, FALSE or NULL *)
-Definition boolish (e : expr) : bool :=
-  match e with
-  | ELit (VBool _) | ELit VNull => true
-  | EBin o _ _ => match o with Add | Sub | Mul => false | _ => true end
-  | ENot _ | EIsNull _ => true
-  | _ => false
-  end.
-Definition is_tvval (v : val) : Prop := v = VNull \/ exists b, v = VBool b.
-Lemma val_of_tv_is_tv t : is_tvval (val_of_tv t).
-Proof. destruct t as [b|]; simpl; [right; exists b; reflexivity | left; reflexivity]. Qed.
-Lemma boolish_tv e cs r : boolish e = true -> is_tvval (eval cs r e).
-Proof.
-  destruct e; simpl; try discriminate.
-  - destruct v; try discriminate; intros _; [left; reflexivity | right; eauto].
-  - destruct o; try discriminate; intros _; simpl; try apply val_of_tv_is_tv; try (right; eauto; fail);
-      destruct (eval cs r e1), (eval cs r e2); try (left; reflexivity); right; eauto.
-  - intros _. apply val_of_tv_is_tv.
-  - intros _. right; eauto.
-Qed.
-Lemma tv_roundtrip v : is_tvval v -> val_of_tv (tv_of_val v) = v.
-Proof. intros [->|[b ->]]; reflexivity. Qed.
-
-(** NOT over a comparison / over NOT *)
-Definition not_of_cmp (o : binop) : option binop :=
-  match o with Eq => Some Neq | Neq => Some Eq | Lt => Some Ge | Le => Some Gt | Gt => Some Le | Ge => Some Lt
-             | _ => None end.
-Lemma cmp_not o o' x y : not_of_cmp o = Some o' ->
-  val_of_tv (not3 (tv_of_val (eval_bin o x y))) = eval_bin o' x y.
-Proof.
-  intro Hn.
-  assert (H : forall c, negb (cmp_tv o c) = cmp_tv o' c).
-  { intro c. destruct o; try discriminate; inversion Hn; subst; destruct c; reflexivity. }
-  destruct o; try discriminate; inversion Hn; subst; cbn [eval_bin];
-    destruct x, y; try reflexivity; cbn [tv_of_val not3 option_map val_of_tv]; rewrite H; reflexivity.
-Qed.
-
-Definition rw_not (e : expr) : expr :=
-  match e with
-  | ENot (ENot a) => if boolish a then a else e
-  | ENot (EBin o a b) => match not_of_cmp o with Some o' => EBin o' a b | None => e end
-  | _ => e
-  end.
-Lemma rw_not_sound e cs r : eval cs r (rw_not e) = eval cs r e.
-Proof.
-  destruct e; try reflexivity. destruct e; try reflexivity.
-  - simpl. destruct (not_of_cmp o) as [o'|] eqn:En; [|reflexivity]. simpl. symmetry. apply cmp_not. exact En.
-  - simpl. destruct (boolish e) eqn:Eb; [|reflexivity]. simpl.
-    destruct (boolish_tv e cs r Eb) as [->|[b ->]]; [reflexivity | destruct b; reflexivity].
-Qed.
-
-(** units and zeros of AND / OR, COALESCE and CASE on a literal *)
-Definition is_lit_bool (b : bool) (e : expr) : bool :=
-  match e with ELit (VBool c) => Bool.eqb b c | _ => false end.
-Lemma is_lit_bool_eq b e : is_lit_bool b e = true -> e = ELit (VBool b).
-Proof.
-  destruct e; simpl; try discriminate. destruct v; try discriminate. intro H.
-  apply Bool.eqb_prop in H. subst. reflexivity.
-Qed.
-
-Definition rw_unit (e : expr) : expr :=
-  match e with
-  | EBin And a b =>
-      if is_lit_bool false a || is_lit_bool false b then ELit (VBool false)
-      else if is_lit_bool true a && boolish b then b
-      else if is_lit_bool true b && boolish a then a
-      else e
-  | EBin Or a b =>
-      if is_lit_bool true a || is_lit_bool true b then ELit (VBool true)
-      else if is_lit_bool false a && boolish b then b
-      else if is_lit_bool false b && boolish a then a
-      else e
-  | ECoalesce (ELit VNull) b => b
-  | ECoalesce (ELit v) _ => ELit v
-  | EIf (ELit (VBool true)) t _ => t
-  | EIf (ELit _) _ f => f
-  | _ => e
-  end.
-
-Lemma rw_unit_sound e cs r : eval cs r (rw_unit e) = eval cs r e.
-Proof.
-  destruct e; try reflexivity.
-  - destruct o; try reflexivity.
-    + (* And *)
-      cbn [rw_unit].
-      destruct (is_lit_bool false e1) eqn:F1.
-      { apply is_lit_bool_eq in F1. subst. simpl. destruct (tv_of_val (eval cs r e2)) as [[|]|]; reflexivity. }
-      destruct (is_lit_bool false e2) eqn:F2.
-      { apply is_lit_bool_eq in F2. subst. simpl. destruct (tv_of_val (eval cs r e1)) as [[|]|]; reflexivity. }
-      cbn [orb].
-      destruct (is_lit_bool true e1 && boolish e2) eqn:T1.
-      { apply andb_true_iff in T1. destruct T1 as [T1 B]. apply is_lit_bool_eq in T1. subst. simpl.
-        destruct (boolish_tv e2 cs r B) as [->|[b ->]]; [reflexivity | destruct b; reflexivity]. }
-      destruct (is_lit_bool true e2 && boolish e1) eqn:T2; [|reflexivity].
-      apply andb_true_iff in T2. destruct T2 as [T2 B]. apply is_lit_bool_eq in T2. subst. simpl.
-      destruct (boolish_tv e1 cs r B) as [->|[b ->]]; [reflexivity | destruct b; reflexivity].
-    + (* Or *)
-      cbn [rw_unit].
-      destruct (is_lit_bool true e1) eqn:F1.
-      { apply is_lit_bool_eq in F1. subst. simpl. destruct (tv_of_val (eval cs r e2)) as [[|]|]; reflexivity. }
-      destruct (is_lit_bool true e2) eqn:F2.
-      { apply is_lit_bool_eq in F2. subst. simpl. destruct (tv_of_val (eval cs r e1)) as [[|]|]; reflexivity. }
-      cbn [orb].
-      destruct (is_lit_bool false e1 && boolish e2) eqn:T1.
-      { apply andb_true_iff in T1. destruct T1 as [T1 B]. apply is_lit_bool_eq in T1. subst. simpl.
-        destruct (boolish_tv e2 cs r B) as [->|[b ->]]; [reflexivity | destruct b; reflexivity]. }
-      destruct (is_lit_bool false e2 && boolish e1) eqn:T2; [|reflexivity].
-      apply andb_true_iff in T2. destruct T2 as [T2 B]. apply is_lit_bool_eq in T2. subst. simpl.
-      destruct (boolish_tv e1 cs r B) as [->|[b ->]]; [reflexivity | destruct b; reflexivity].
-  - (* EIf *)
-    destruct e1; try reflexivity. destruct v; try reflexivity. destruct b; reflexivity.
-  - (* ECoalesce *)
-    destruct e1; try reflexivity. destruct v; reflexivity.
-Qed.
-
-Definition rw (e : expr) : expr := rw_flip (rw_not (rw_unit (rw_fold e))).
-Lemma rw_sound e cs r : eval cs r (rw e) = eval cs r e.
-Proof. unfold rw. rewrite rw_flip_sound, rw_not_sound, rw_unit_sound, rw_fold_sound. reflexivity. Qed.
-
-Fixpoint enorm (e : expr) : expr :=
-  match e with
-  | ECol n => ECol n
-  | ELit v => ELit v
-  | EBin o a b => rw (EBin o (enorm a) (enorm b))
-  | ENot a => rw (ENot (enorm a))
-  | ENeg a => rw (ENeg (enorm a))
-  | EIsNull a => rw (EIsNull (enorm a))
-  | EIf c t f => rw (EIf (enorm c) (enorm t) (enorm f))
-  | ECoalesce a b => rw (ECoalesce (enorm a) (enorm b))
-  end.
-
-Theorem enorm_sound e cs r : eval cs r (enorm e) = eval cs r e.
-Proof.
-  induction e; simpl; try reflexivity; rewrite rw_sound; simpl.
-  - rewrite IHe1, IHe2. reflexivity.
-  - rewrite IHe. reflexivity.
-  - rewrite IHe. reflexivity.
-  - rewrite IHe. reflexivity.
-  - rewrite IHe1, IHe2, IHe3. reflexivity.
-  - rewrite IHe1, IHe2. reflexivity.
-Qed.
-
-(** * Canonical form of a block *)
-Definition is_true_lit (e : expr) : bool := is_lit_bool true e.
-Fixpoint dedup_e (seen : list expr) (l : list expr) : list expr :=
-  match l with
-  | [] => []
-  | x :: l' => if existsb (expr_eqb x) seen then dedup_e seen l' else x :: dedup_e (x :: seen) l'
-  end.
-
-Definition canon_where (ws : list expr) : list expr :=
-  dedup_e [] (sort expr_leb (filter (fun e => negb (is_true_lit e))
-                                    (flat_map conjuncts (map enorm (flat_map conjuncts ws))))).
-
-Definition canon_blk (b : block) : block :=
-  mkBlock (canon_where (b_where b)) (map (fun it => (enorm (fst it), snd it)) (b_sel b))
-          (b_distinct b) (b_order b) (b_limit b).
-
-Lemma forallb_set_ext {A} (f : A -> bool) a b :
-  (forall x, In x a <-> In x b) -> forallb f a = forallb f b.
-Proof.
-  intro H. destruct (forallb f a) eqn:Ea; destruct (forallb f b) eqn:Eb; try reflexivity.
-  - rewrite forallb_forall in Ea. assert (forallb f b = true); [|congruence].
-    apply forallb_forall. intros x Hx. apply Ea. apply H. exact Hx.
-  - rewrite forallb_forall in Eb. assert (forallb f a = true); [|congruence].
-    apply forallb_forall. intros x Hx. apply Eb. apply H. exact Hx.
-Qed.
-
-Lemma dedup_e_in l : forall seen x, In x (dedup_e seen l) -> In x l.
-Proof.
-  induction l as [|y l IH]; intros seen x H; simpl in *; [contradiction|].
-  destruct (existsb (expr_eqb y) seen); [right; eauto|].
-  destruct H as [<-|H]; [left; reflexivity | right; eauto].
-Qed.
-Lemma dedup_e_complete l : forall seen x, In x l -> In x (dedup_e seen l) \/ In x seen.
-Proof.
-  induction l as [|y l IH]; intros seen x H; simpl in *; [contradiction|].
-  destruct (existsb (expr_eqb y) seen) eqn:E.
-  - destruct H as [<-|H]; [|eauto]. right. apply existsb_exists in E. destruct E as [z [Hz Ez]].
-    apply expr_eqb_eq in Ez. subst. exact Hz.
-  - destruct H as [<-|H]; [left; left; reflexivity|].
-    destruct (IH (y :: seen) x H) as [H1|[<-|H1]]; [left; right; exact H1 | left; left; reflexivity | right; exact H1].
-Qed.
-
-Lemma all_hold_canon_where cs ws r : all_hold cs (canon_where ws) r = all_hold cs ws r.
-Proof.
-  unfold canon_where, all_hold.
-  set (l0 := flat_map conjuncts ws).
-  set (l1 := flat_map conjuncts (map enorm l0)).
-  set (l2 := filter (fun e => negb (is_true_lit e)) l1).
-  transitivity (forallb (holds cs r) l2).
-  { apply forallb_set_ext. intro x. split.
-    - intro H. apply dedup_e_in in H. eapply Permutation_in; [symmetry; apply sort_perm | exact H].
-    - intro H. assert (H' : In x (sort expr_leb l2)) by (eapply Permutation_in; [apply sort_perm | exact H]).
-      destruct (dedup_e_complete _ [] x H') as [H1|[]]. exact H1. }
-  transitivity (forallb (holds cs r) l1).
-  { unfold l2. induction l1 as [|e l IH]; simpl; [reflexivity|].
-    destruct (is_true_lit e) eqn:Et; simpl.
-    - apply is_lit_bool_eq in Et. subst. simpl. exact IH.
-    - rewrite IH. reflexivity. }
-  transitivity (forallb (holds cs r) (map enorm l0)).
-  { exact (all_hold_flat cs (map enorm l0) r). }
-  transitivity (forallb (holds cs r) l0).
-  { induction l0 as [|e l IH]; simpl; [reflexivity|]. rewrite IH. f_equal.
-    unfold holds. rewrite enorm_sound. reflexivity. }
-  exact (all_hold_flat cs ws r).
-Qed.
-
-Lemma eval_canon_blk b fr : eval_block (canon_blk b) fr = eval_block b fr.
-Proof.
-  unfold eval_block, canon_blk. cbn [b_where b_sel b_distinct b_order b_limit].
-  assert (Eo : out_cols (map (fun it : expr * string => (enorm (fst it), snd it)) (b_sel b)) = out_cols (b_sel b)).
-  { unfold out_cols. rewrite map_map. reflexivity. }
-  assert (Ep : forall r, proj (cols fr) (map (fun it : expr * string => (enorm (fst it), snd it)) (b_sel b)) r
-                         = proj (cols fr) (b_sel b) r).
-  { intro r. unfold proj. rewrite map_map. apply map_ext. intro it. simpl. apply enorm_sound. }
-  rewrite Eo. rewrite (filter_ext _ _ (all_hold_canon_where (cols fr) (b_where b))).
-  rewrite (map_ext _ _ (fun r => f_equal (fun x => (x, r)) (Ep r))). reflexivity.
-Qed.
-
-Lemma eval_chain_map_canon bs : forall fr, eval_chain (map canon_blk bs) fr = eval_chain bs fr.
-Proof.
-  induction bs as [|b bs IH]; intro fr; simpl; [reflexivity|]. rewrite eval_canon_blk. apply IH.
-Qed.
 
 (** * The normaliser and the checker *)
 Definition nf' (cs : list string) (bs : list block) : list block :=
@@ -683,3 +92,34 @@ Example certify_example :
              [mkKey (ECol "b") true false] (Some 3%nat)]
   = true.
 Proof. vm_compute. reflexivity. Qed.
+
+(** the two further merge rules at work: an ordered CTE under a filter+projection (the optimizer returns one
+    SELECT with WHERE and ORDER BY), and a filter above DISTINCT (the optimizer moves it below) *)
+Example certify_order_then_filter :
+  equiv_check ["a"; "b"]%string
+    [pass_block ["a"; "b"]%string;
+     mkBlock [] (passthrough ["a"; "b"]%string) false [mkKey (ECol "a") true true; mkKey (ECol "b") false true] None;
+     mkBlock [EBin Gt (ECol "b") (ELit (VInt 1))] [(ECol "b", "b"%string); (ECol "a", "c"%string)] false [] None]
+    [mkBlock [EBin Gt (ECol "b") (ELit (VInt 1))] [(ECol "b", "b"%string); (ECol "a", "c"%string)] false
+             [mkKey (ECol "a") true true; mkKey (ECol "b") false true] None]
+  = true.
+Proof. vm_compute. reflexivity. Qed.
+
+Example certify_filter_above_distinct :
+  equiv_check ["a"; "b"]%string
+    [mkBlock [] (passthrough ["a"; "b"]%string) true [] None;
+     mkBlock [EIsNull (ECol "b")] (passthrough ["a"; "b"]%string) false [] None]
+    [mkBlock [EIsNull (ECol "b")] (passthrough ["a"; "b"]%string) true [] None;
+     pass_block ["a"; "b"]%string]
+  = true.
+Proof. vm_compute. reflexivity. Qed.
+
+(** the ORDER BY key captured by a later alias is NOT an equivalence and is rejected:
+    df.orderBy('a').withColumn('a', -a)  vs  SELECT -a AS a ... ORDER BY a *)
+Example order_key_capture_rejected :
+  let raw := [mkBlock [] (passthrough ["a"%string]) false [mkKey (ECol "a") false true] None;
+              mkBlock [] [(ENeg (ECol "a"), "a"%string)] false [] None] in
+  let opt := [mkBlock [] [(ENeg (ECol "a"), "a"%string)] false [mkKey (ECol "a") false true] None] in
+  equiv_check ["a"%string] raw opt = false
+  /\ eval_chain raw (mkFrame ["a"%string] [[VInt 1]; [VInt 2]]) <> eval_chain opt (mkFrame ["a"%string] [[VInt 1]; [VInt 2]]).
+Proof. split; [vm_compute; reflexivity | vm_compute; discriminate]. Qed.
